@@ -10,23 +10,32 @@ behaves like ITS reference cache, and "calls whose arguments differ never receiv
 for calls of different functions.  The model `AsynqModel.Cache.*.Fam` (Lib/CacheFam.lean) follows tools.py: the cache is
 built by `decorator(fn)` / `cache_fun(fun)`, once per decorated function, never by the decorator factory.
 
-* `C13_alru_shared_decorator_refines`, `C13_alru_shared_decorator_refines_keyfn`, `C13_per_instance_shared_decorator_refines_partial`,
-  `C13_lazy_shared_decorator_refines`: for ANY number of functions (with any signatures) decorated by one decorator object
-  and EVERY interleaved history, the model's observations are accepted by the observer that holds one reference cache per
-  function;
-* `C13_alru_family_projection`: what function `f` of a family returns is exactly what `f` decorated on its own returns on
-  its own calls - so every single-function theorem of Theorems/C13.lean (size, eviction policy) holds per function
-  (`C13_alru_family_size_le_maxsize`);
+BY CONSTRUCTION (not headline claims; checks/c13.py BY_CONSTRUCTION): the alru_cache family model is the product of
+single-function models (`Alru.Fam.observe := setAt sts o.fn (single observe)`), so
+`C13_alru_shared_decorator_refines`, `C13_alru_shared_decorator_refines_keyfn`, `C13_alru_family_projection` and
+`C13_alru_family_size_le_maxsize` are the single-function theorems lifted; they would hold for ANY per-function step.
+That the real cache is per function is what the correspondence check on families establishes.
+
+With content of their own:
+* `C13_per_instance_shared_decorator_refines_partial`: the instance is SHARED by the methods - a drop is seen by every
+  method's dict, and (`PerInst.Fam.pinnedAny`) a value cached by one method keeps the entries of all methods;
+  for EVERY interleaved history without such a value the model is accepted by the observer that holds one reference
+  cache per method and live instance;
 * `C13_per_instance_family_leak_counterexample`: the open finding seen across methods - a value cached by ONE method that
-  refers to the instance keeps the entries of ALL methods alive.
+  refers to the instance keeps the entries of ALL methods alive; `C13_per_instance_family_nfn_needed`;
+* `C13_lazy_shared_decorator_refines`: ONE clock for all constants (a body of any duration run by one constant ages the
+  others), one stored value and storing time per function.
 -/
 namespace AsynqModel.Cache
 
 /-! ## alru_cache -/
 
 /-- default key: for every assignment of signatures to functions, every maxsize ≥ 1 and EVERY interleaved history of
-    calls (each in `alruCallOK` of its function's signature) of any number of functions decorated by ONE
-    `alru_cache(maxsize)` object, the model is accepted by `Alru.Fam.spec`: one reference cache per function -/
+    calls (each in `alruCallOK` of its function's signature) of any number of functions decorated by
+    ONE `alru_cache(maxsize)` object, the model is accepted by `Alru.Fam.spec`: one reference cache per function.
+    BY CONSTRUCTION: the family model is the product of single-function models (`Fam.observe := setAt ..`), so this is
+    `C13_alru_refines` lifted; that the cache is built in `decorator(fn)` and not in `alru_cache(..)` is what the
+    correspondence check establishes, not this theorem -/
 theorem C13_alru_shared_decorator_refines (sigs : Nat → Sig) (cap : Nat) (hcap : 1 ≤ cap) (ops : List Alru.Fam.Op)
     (h : ∀ o ∈ ops, alruCallOK (sigs o.fn) o.op.c = true) :
     Alru.Fam.spec (fun f => alruRefKey .default (sigs f)) (fun f => alruBind (sigs f)) cap ops
@@ -62,8 +71,8 @@ theorem C13_alru_family_size_le_maxsize (mk : Nat → Call → Option Key) (bd :
   rw [Alru.Fam.finalState_at]
   exact (C13_alru_size_le_maxsize (mk f) (bd f) cap hcap _).1
 
-private abbrev sgF : Sig := ⟨[1, 2], [0], [], []⟩      -- def f(a, b=0)
-private abbrev sgG : Sig := ⟨[1], [], [4], [(4, 0)]⟩   -- def g(a, *, k=0)
+private abbrev sgF : Sig := ⟨[1, 2], [0], [], [], false⟩      -- def f(a, b=0)
+private abbrev sgG : Sig := ⟨[1], [], [4], [(4, 0)], false⟩   -- def g(a, *, k=0)
 private def sigsFG : Nat → Sig := fun f => if f == 0 then sgF else sgG
 
 /-- non-vacuity: `cached = alru_cache(maxsize=1)` above `f(a, b=0)` and `g(a, *, k=0)`: `f(1)` miss, `g(1)` MISS (own
@@ -90,8 +99,12 @@ example : Alru.Fam.specClause (fun f => alruRefKey .default (sigsFG f)) (fun f =
     object and EVERY interleaved history of calls (in `perInstCallOK` of their method's signature) on any instances
     and of instance drops, in which no body returns a value that refers to its instance, the model is accepted by
     `PerInst.Fam.spec`: one reference cache per method and live instance, all gone when the program drops the
-    instance.  `_partial`: see `C13_per_instance_family_leak_counterexample` -/
+    instance.  `_partial`: see `C13_per_instance_family_leak_counterexample` (`hsr`).  `_hf` (every called method is one of the `nfn` methods the drop
+    observation sums over) is not used by the proof but keeps the statement honest: with `nfn` too small model AND
+    observer ignore the entries of the methods beyond it, and the leaking history is accepted
+    (`C13_per_instance_family_nfn_needed`) -/
 theorem C13_per_instance_shared_decorator_refines_partial (nfn : Nat) (sigs : Nat → Sig) (ops : List PerInst.Fam.Op)
+    (_hf : ∀ f i c r sr, PerInst.Fam.Op.call f i c r sr ∈ ops → f < nfn)
     (h : ∀ f i c r sr, PerInst.Fam.Op.call f i c r sr ∈ ops → perInstCallOK (sigs f) c = true)
     (hsr : PerInst.Fam.noSelfRef ops = true) :
     PerInst.Fam.spec nfn (fun f => perInstRefKey (sigs f)) (fun f => perInstBind (sigs f)) ops
@@ -103,7 +116,7 @@ theorem C13_per_instance_shared_decorator_refines_partial (nfn : Nat) (sigs : Na
       simpa using this⟩)
   simp [PerInst.Fam.spec, hw]
 
-private abbrev sgM1 : Sig := ⟨[9, 1], [], [], []⟩        -- def m1(self, a)
+private abbrev sgM1 : Sig := ⟨[9, 1], [], [], [], false⟩        -- def m1(self, a)
 private def sigsM : Nat → Sig := fun _ => sgM1
 
 /-- the open finding across methods: `obj.m0(1)` caches a value that refers to `obj`, `obj.m1(1)` caches a plain value,
@@ -117,6 +130,18 @@ theorem C13_per_instance_family_leak_counterexample :
     ((PerInst.Fam.run 2 (fun f => perInstKey (sigsM f)) (fun f => perInstBind (sigsM f)) PerInst.Fam.init
         [.call 0 0 ⟨[1], []⟩ false true, .call 1 0 ⟨[1], []⟩ false false, .drop 0]).map (·.extra)) = [1, 1, 2] := by
   decide
+
+/-- `f < nfn` matters: with `nfn = 0` the drop observation sums over no method at all, and the leaking history
+    (`obj.m0(1)` caches a value that refers to `obj`; `del obj`) is ACCEPTED by the observer -/
+theorem C13_per_instance_family_nfn_needed :
+    PerInst.Fam.specClause 0 (fun f => perInstRefKey (sigsM f)) (fun f => perInstBind (sigsM f))
+      [.call 0 0 ⟨[1], []⟩ false true, .drop 0]
+      (PerInst.Fam.run 0 (fun f => perInstKey (sigsM f)) (fun f => perInstBind (sigsM f)) PerInst.Fam.init
+        [.call 0 0 ⟨[1], []⟩ false true, .drop 0]) = none ∧
+    PerInst.Fam.specClause 1 (fun f => perInstRefKey (sigsM f)) (fun f => perInstBind (sigsM f))
+      [.call 0 0 ⟨[1], []⟩ false true, .drop 0]
+      (PerInst.Fam.run 1 (fun f => perInstKey (sigsM f)) (fun f => perInstBind (sigsM f)) PerInst.Fam.init
+        [.call 0 0 ⟨[1], []⟩ false true, .drop 0]) = some .instances := by decide
 
 /-- non-vacuity: two methods, two instances; the same arguments on the other method or the other instance miss, another
     spelling on the same method and instance hits; the drop of instance 0 removes its entry from BOTH methods' dicts
